@@ -503,21 +503,29 @@ async fn delete_segments(
         match topic.get_partition(segment_to_delete.partition_id) {
             Ok(partition) => {
                 let mut partition = partition.write().await;
-                let mut last_end_offset = 0;
+                // When every segment is going to be deleted, the segment that continues the
+                // offsets is created first: if the server stops in between, the partition
+                // still knows where it was.
+                let deletes_all_segments = partition.get_segments().iter().all(|segment| {
+                    segment_to_delete
+                        .start_offsets
+                        .contains(&segment.start_offset)
+                });
+                if let (true, Some(last_segment)) =
+                    (deletes_all_segments, partition.get_segments().last())
+                {
+                    let start_offset = last_segment.end_offset + 1;
+                    partition.add_persisted_segment(start_offset).await.with_error_context(|error| {
+                        format!("CHANNEL_COMMAND - failed to add persisted segment for stream with ID: {}, topic with ID: {}. {error}", topic.stream_id, topic.topic_id)
+                    })?;
+                }
+
                 for start_offset in &segment_to_delete.start_offsets {
                     let deleted_segment = partition.delete_segment(*start_offset).await.with_error_context(|error| {
                         format!("CHANNEL_COMMAND - failed to delete segment for stream with ID: {}, topic with ID: {}. {error}", topic.stream_id, topic.topic_id)
                     })?;
-                    last_end_offset = deleted_segment.end_offset;
                     segments_count += 1;
                     messages_count += deleted_segment.messages_count;
-                }
-
-                if partition.get_segments().is_empty() {
-                    let start_offset = last_end_offset + 1;
-                    partition.add_persisted_segment(start_offset).await.with_error_context(|error| {
-                        format!("CHANNEL_COMMAND - failed to add persisted segment for stream with ID: {}, topic with ID: {}. {error}", topic.stream_id, topic.topic_id)
-                    })?;
                 }
             }
             Err(error) => {
